@@ -4,7 +4,7 @@ Signature, clef and measure maps of partitura/score.py (C10):
 `measure_number_map`, `metrical_position_map`, and the single-sample wrapper
 `partitura.utils.generic.interp1d`.
 
-The model mirrors the *repaired* code (fixes/C10-1 … C10-7):
+The model mirrors the *repaired* code (fixes/C10-1 … C10-8):
   C10-1  `np.row_stack` -> `np.vstack` in `metrical_position_map`
   C10-2  `clef_map` on a part without clefs (`reshape(-1, 5)`)
   C10-3  `measure_map` / `measure_number_map`: the "no measures" default comes first
@@ -12,6 +12,7 @@ The model mirrors the *repaired* code (fixes/C10-1 … C10-7):
   C10-5  `interp1d` single-sample branch: list arguments are vectors
   C10-6  `clef_map` on a part without time points
   C10-7  `metrical_position_map` with exactly one measure uses the general branch
+  C10-8  the pickup-corrected start of the first measure is rounded, not truncated
 
 A table is the list of rows `(time, value)` handed to `interp1d(x, y, kind="previous",
 fill_value="extrapolate")`, in the order `Part.iter_all` delivers the elements (time order).
@@ -140,19 +141,17 @@ def clefMap (span : Span) (clefs : List RawClef) (otherStaffs : List Int) (x : I
   match clefRows clefs, clefSignToInt "none" with
   | some rows, some noneCode =>
     let n := numberOfStaves (clefs.map (·.2.1) ++ otherStaffs)
-    some ((List.range n).map fun i => interpPrev (clefTableStaff span rows noneCode ((i : Int) + 1)) x)
+    some ((List.range n).map fun (i : Nat) => interpPrev (clefTableStaff span rows noneCode ((i : Int) + 1)) x)
   | _, _ => none
 
 -- ------------------------------------------------------------------ measures
 
-/-- float -> int conversion of a numpy item assignment (C cast: towards zero) -/
-def truncZero (r : Rat) : Int := if 0 ≤ r then r.floor else -((-r).floor)
-
 /-- anacrusis correction of the first measure: `beats0 = time_signature_map(0)[0]`,
-    `d = inv_beat_map(1 + beat_map(0))` (`none` = NaN: every comparison is false) -/
+    `d = inv_beat_map(1 + beat_map(0))` (`none` = NaN: every comparison is false);
+    the new start is `np.round(end - beats0 * d)` (repaired: it used to be truncated) -/
 def pickupStart (s e : Int) (beats0 d : Option Rat) : Int :=
   match beats0, d with
-  | some b, some d => if ((e - s : Int) : Rat) < b * d then truncZero ((e : Rat) - b * d) else s
+  | some b, some d => if ((e - s : Int) : Rat) < b * d then roundHalfEven ((e : Rat) - b * d) else s
   | _, _ => s
 
 def beatsAtZero (span : Span) (tss : List (Int × Nat × Nat)) : Option Rat :=
@@ -172,7 +171,7 @@ def measureMap (span : Span) (tss : List (Int × Nat × Nat)) (ms : List (Int ×
 
 /-- `m_it[i - 1].number if m.number == None else m.number` (index `-1` wraps to the last measure) -/
 def fillNumbers (nums : List (Option Int)) : List (Option Int) :=
-  (List.range nums.length).map fun i =>
+  (List.range nums.length).map fun (i : Nat) =>
     match nums[i]? with
     | some (some k) => some k
     | _ => (pyIndex nums ((i : Int) - 1)).join
